@@ -44,26 +44,38 @@ func c11Specs() []*bfsSpec {
 // told over PEX) names exactly the peers that are connected and can be
 // announced (outgoing connections; an incoming one has no known listening port).
 func pexLiveness(w *World) {
-	for i := 0; i < 3; i++ {
+	// (a peer may also leave during these rounds - a stalled one dies of a write
+	// timeout: a departure counts once it has been observed for two full rounds)
+	goneFor := map[int]int{}
+	note := func() {
+		for _, o := range w.remotes {
+			if o.closed || o.exited() {
+				goneFor[o.idx]++
+			}
+		}
+	}
+	note()
+	for i := 0; i < 4; i++ {
 		w.apply("adv:61")
 		w.checkInvariants()
+		note()
 	}
 	if len(w.prob) > 0 || w.loopDead {
 		return
 	}
 	for _, r := range w.remotes {
-		if r.closed || r.exited() || r.cfg.Pex == 0 || !r.sentExt0 {
+		if r.closed || r.exited() || r.cfg.Pex == 0 || !r.sentExt0 || r.stalled || r.pendingOut() {
 			continue
 		}
 		for k := range r.pexKnown {
 			alive := false
 			for _, o := range w.remotes {
-				if o != r && !o.closed && !o.exited() && o.p.IP == k.Addr() {
-					alive = true
+				if o != r && o.p.IP == k.Addr() && (!(o.closed || o.exited()) || goneFor[o.idx] < 3) {
+					alive = true // connected, or gone for less than two full rounds
 				}
 			}
 			if !alive {
-				w.problem("C11", "C11/pex-world/departure-never-reported", "three PEX rounds after it left, remote %d still has %v on its list: the departure is never reported", r.idx, k)
+				w.problem("C11", "C11/pex-world/departure-never-reported", "more than two PEX rounds after it left, remote %d still has %v on its list: the departure is never reported", r.idx, k)
 			}
 		}
 		for _, o := range w.remotes {
@@ -84,7 +96,7 @@ func pexLiveness(w *World) {
 }
 
 func c11WorldExtras() []*bfsSpec {
-	pexer := peerCfg{Ext: true, Pex: 9, DontHave: 7}
+	pexer := peerCfg{Fast: true, Ext: true, Pex: 9, DontHave: 7}
 	natted := peerCfg{Ext: true, Pex: 9, ExtPort: 7777} // listens on another port than the one we dialled
 	incoming := peerCfg{Ext: true, Pex: 9, Incoming: true, ExtPort: 6999}
 	return []*bfsSpec{
@@ -100,7 +112,9 @@ func c11WorldExtras() []*bfsSpec {
 			Depth: 5, DepthT: 6},
 		// peer exchange at the level of the torrent: who is announced to whom, under which address, and who is dropped
 		{Name: "c11-pex-world", Cfg: worldCfg{Geom: "g2x2", Peers: []peerCfg{pexer, natted, incoming}, AutoDrain: true},
-			Alphabet: []string{"adv:61", "adv:2", "close:0", "close:1", "close:2", "addpeer:2", "addpeer:6", "bf:0:3"},
+			// (stall + flood: remote 0 has stopped reading and storrent's writer to it is more
+			// than half full when a PEX round comes)
+			Alphabet: []string{"adv:61", "adv:2", "close:1", "close:2", "addpeer:2", "addpeer:6", "stall:0", "flood:0:251", "resume:0"},
 			Depth: 4, DepthT: 5, Live: pexLiveness},
 		{Name: "c11-pex-world-natted-first", Cfg: worldCfg{Geom: "g2x2", Peers: []peerCfg{natted, pexer}, AutoDrain: true},
 			Alphabet: []string{"adv:61", "adv:2", "close:0", "close:1", "addpeer:2", "addpeer:6"},
